@@ -269,24 +269,30 @@ int64_t carquet_rle_decoder_skip(
  * ============================================================================
  */
 
-static void write_varint(carquet_buffer_t* buf, uint32_t value) {
+static carquet_status_t write_varint(carquet_buffer_t* buf, uint32_t value) {
     uint8_t bytes[5];
     int len = 0;
-
     while (value >= 0x80) {
         bytes[len++] = (uint8_t)((value & 0x7F) | 0x80);
         value >>= 7;
     }
     bytes[len++] = (uint8_t)value;
+    return carquet_buffer_append(buf, bytes, (size_t)len);
+}
 
-    carquet_buffer_append(buf, bytes, (size_t)len);
+/* Remember the first failure to append to the output buffer; the encoder
+ * then reports it from put()/flush() instead of producing a truncated stream */
+static void note_status(carquet_rle_encoder_t* enc, carquet_status_t status) {
+    if (status != CARQUET_OK && enc->status == CARQUET_OK) {
+        enc->status = status;
+    }
 }
 
 static void flush_rle(carquet_rle_encoder_t* enc) {
     if (enc->repeat_count == 0) return;
 
     /* Write RLE header: (count << 1) | 0 */
-    write_varint(enc->buffer, (uint32_t)(enc->repeat_count << 1));
+    note_status(enc, write_varint(enc->buffer, (uint32_t)(enc->repeat_count << 1)));
 
     /* Write value (ceil(bit_width/8) bytes) */
     int value_bytes = (enc->bit_width + 7) / 8;
@@ -294,8 +300,7 @@ static void flush_rle(carquet_rle_encoder_t* enc) {
     for (int i = 0; i < value_bytes; i++) {
         bytes[i] = (uint8_t)(enc->prev_value >> (i * 8));
     }
-    carquet_buffer_append(enc->buffer, bytes, (size_t)value_bytes);
-
+    note_status(enc, carquet_buffer_append(enc->buffer, bytes, (size_t)value_bytes));
     enc->repeat_count = 0;
 }
 
@@ -309,13 +314,13 @@ static void flush_bitpack(carquet_rle_encoder_t* enc) {
 
     /* Write bit-packed header: (num_groups << 1) | 1 */
     int num_groups = (int)((enc->bitpack_total + 7) / 8);
-    write_varint(enc->buffer, (uint32_t)((num_groups << 1) | 1));
+    note_status(enc, write_varint(enc->buffer, (uint32_t)((num_groups << 1) | 1)));
 
     /* Write packed data for all groups */
     uint8_t packed[32];  /* Max for 32-bit values, 8 values */
     for (int g = 0; g < num_groups; g++) {
         carquet_bitpack8_32(enc->bitpack_buffer, enc->bit_width, packed);
-        carquet_buffer_append(enc->buffer, packed, (size_t)enc->bit_width);
+        note_status(enc, carquet_buffer_append(enc->buffer, packed, (size_t)enc->bit_width));
 
         /* Shift remaining values */
         /* Note: This simplified impl assumes we flush after each group */
@@ -393,10 +398,9 @@ carquet_status_t carquet_rle_encoder_put(
 
     /* Value changed */
     emit_pending_run(enc);
-
     enc->prev_value = value;
     enc->repeat_count = 1;
-    return CARQUET_OK;
+    return enc->status;
 }
 
 carquet_status_t carquet_rle_encoder_put_repeat(
@@ -422,8 +426,7 @@ carquet_status_t carquet_rle_encoder_flush(carquet_rle_encoder_t* enc) {
     if (enc->bitpack_count > 0) {
         flush_bitpack(enc);
     }
-
-    return CARQUET_OK;
+    return enc->status;
 }
 
 /* ============================================================================
